@@ -27,7 +27,7 @@ use rustc_middle::mir::{
     ProjectionElem, Rvalue, StatementKind, TerminatorKind,
 };
 use rustc_middle::ty::print::with_no_trimmed_paths;
-use rustc_middle::ty::{self, Ty, TyCtxt, TypingEnv};
+use rustc_middle::ty::{self, Ty, TyCtxt, TypeVisitableExt, TypingEnv};
 use rustc_span::Span;
 
 struct Cb;
@@ -610,6 +610,12 @@ fn dump_body<'tcx>(tcx: TyCtxt<'tcx>, did: DefId, body: &Body<'tcx>, j: &mut J) 
                 t.set("t", J::str("drop"));
                 t.set("place", place_json(tcx, body, place));
                 t.set("place_ty", ty_json(tcx, place.ty(&body.local_decls, tcx).ty));
+                {
+                    let im = implicit_drop_edges(tcx, env, place.ty(&body.local_decls, tcx).ty);
+                    if !im.is_empty() {
+                        t.set("implicit", J::arr(im.iter().map(|s| J::str(s)).collect()));
+                    }
+                }
                 t.set("to", J::int(target.as_usize() as i128));
                 if let mir::UnwindAction::Cleanup(bb) = unwind {
                     t.set("unwind", J::int(bb.as_usize() as i128));
@@ -647,6 +653,22 @@ fn dump_body<'tcx>(tcx: TyCtxt<'tcx>, did: DefId, body: &Body<'tcx>, j: &mut J) 
                         }
                         if cdid.is_local() {
                             t.set("local", J::bool(true));
+                        }
+                        // implicit edges through the callee's trait bounds
+                        // (only interesting when the final callee is not a
+                        // local body that we analyse on its own)
+                        {
+                            let (rdid, rargs) = match ty::Instance::try_resolve(tcx, env, *cdid, cargs) {
+                                Ok(Some(i)) => (i.def_id(), i.args),
+                                _ => (*cdid, *cargs),
+                            };
+                            t.set("rkrate", J::str(tcx.crate_name(rdid.krate).as_str()));
+                            if !rdid.is_local() && cargs.types().any(|t| ty_mentions_local(t)) {
+                                let im = implicit_call_edges(tcx, env, rdid, rargs);
+                                if !im.is_empty() {
+                                    t.set("implicit", J::arr(im.iter().map(|s| J::str(s)).collect()));
+                                }
+                            }
                         }
                         t.set("krate", J::str(tcx.crate_name(cdid.krate).as_str()));
                     }
@@ -950,4 +972,192 @@ fn dump_const<'tcx>(tcx: TyCtxt<'tcx>, id: LocalDefId) -> Option<J> {
         let _ = env;
     }
     Some(j)
+}
+
+// ---------------------------------------------------------------------------
+// Implicit edges: trait methods an external generic callee may invoke through
+// its (instantiated) trait bounds, and destructors run by a Drop terminator.
+
+fn ty_mentions_local<'tcx>(t: Ty<'tcx>) -> bool {
+    for arg in t.walk() {
+        if let Some(t) = arg.as_type() {
+            match t.kind() {
+                ty::Adt(d, _) if d.did().is_local() => return true,
+                ty::Closure(d, _) | ty::FnDef(d, _) if d.is_local() => return true,
+                _ => {}
+            }
+        }
+    }
+    false
+}
+
+struct Implicit<'tcx> {
+    tcx: TyCtxt<'tcx>,
+    env: TypingEnv<'tcx>,
+    seen: std::collections::HashSet<String>,
+    out: Vec<String>,
+    budget: usize,
+}
+
+impl<'tcx> Implicit<'tcx> {
+    fn bounds_of(&mut self, did: DefId, args: ty::GenericArgsRef<'tcx>, depth: usize) {
+        if depth > 5 || self.budget == 0 {
+            return;
+        }
+        let tcx = self.tcx;
+        let preds = tcx.predicates_of(did).instantiate(tcx, args);
+        for clause in preds.predicates {
+            let clause = clause.skip_norm_wip();
+            if let Some(tp) = clause.as_trait_clause() {
+                if let Some(tp) = tp.no_bound_vars() {
+                    self.trait_ref(tp.trait_ref, depth);
+                }
+            }
+        }
+    }
+
+    fn trait_ref(&mut self, tr: ty::TraitRef<'tcx>, depth: usize) {
+        let tcx = self.tcx;
+        let tr = tcx.erase_and_anonymize_regions(tr);
+        let tr = match tcx.try_normalize_erasing_regions(self.env, ty::Unnormalized::new_wip(tr)) {
+            Ok(t) => t,
+            Err(_) => tr,
+        };
+        if !tr.args.types().any(|t| ty_mentions_local(t)) {
+            return;
+        }
+        let key = tr.to_string();
+        if !self.seen.insert(key) {
+            return;
+        }
+        if self.budget == 0 {
+            return;
+        }
+        self.budget -= 1;
+        let self_ty = tr.self_ty();
+        let mut inner = self_ty;
+        while let ty::Ref(_, t, _) = inner.kind() {
+            inner = *t;
+        }
+        match inner.kind() {
+            ty::Closure(d, _) if d.is_local() => self.out.push(tcx.def_path_str(*d)),
+            ty::FnDef(d, a) if tcx.is_lang_item(tr.def_id, rustc_hir::LangItem::FnOnce)
+                || tcx.is_lang_item(tr.def_id, rustc_hir::LangItem::FnMut)
+                || tcx.is_lang_item(tr.def_id, rustc_hir::LangItem::Fn) =>
+            {
+                let ((_, path), _) = resolve_callee(tcx, self.env, *d, a);
+                self.out.push(path);
+            }
+            _ => {}
+        }
+        if tr.has_param() || tr.has_escaping_bound_vars() {
+            // too generic to select an impl; the Python side over-approximates
+            // by all local impls of the trait for calls it cannot resolve.
+            return;
+        }
+        if let Ok(src) = tcx.codegen_select_candidate(self.env.as_query_input(tr)) {
+            if let rustc_middle::traits::ImplSource::UserDefined(d) = src {
+                if d.impl_def_id.is_local() {
+                    for item in tcx.associated_items(d.impl_def_id).in_definition_order() {
+                        if item.is_fn() {
+                            self.out.push(tcx.def_path_str(item.def_id));
+                        }
+                    }
+                } else {
+                    self.bounds_of(d.impl_def_id, d.args, depth + 1);
+                }
+            }
+        }
+        // super traits and bounds on associated types
+        if depth < 5 {
+            for c in tcx.explicit_super_predicates_of(tr.def_id).iter_instantiated_copied(tcx, tr.args) {
+                let (c, _) = c.skip_norm_wip();
+                if let Some(tp) = c.as_trait_clause() {
+                    if let Some(tp) = tp.no_bound_vars() {
+                        self.trait_ref(tp.trait_ref, depth + 1);
+                    }
+                }
+            }
+            for item in tcx.associated_items(tr.def_id).in_definition_order() {
+                if item.is_type() {
+                    for c in
+                        tcx.explicit_item_bounds(item.def_id).iter_instantiated_copied(tcx, tr.args)
+                    {
+                        let (c, _) = c.skip_norm_wip();
+                        if let Some(tp) = c.as_trait_clause() {
+                            if let Some(tp) = tp.no_bound_vars() {
+                                self.trait_ref(tp.trait_ref, depth + 1);
+                            }
+                        }
+                    }
+                }
+            }
+        }
+    }
+
+    fn drops(&mut self, t: Ty<'tcx>, depth: usize) {
+        if depth > 8 {
+            return;
+        }
+        let tcx = self.tcx;
+        if !self.seen.insert(format!("drop {}", t)) {
+            return;
+        }
+        match t.kind() {
+            ty::Adt(def, args) => {
+                if let Some(d) = def.destructor(tcx) {
+                    if d.did.is_local() {
+                        self.out.push(tcx.def_path_str(d.did));
+                    }
+                }
+                if def.is_manually_drop() {
+                    return;
+                }
+                for a in args.types() {
+                    self.drops(a, depth + 1);
+                }
+                if def.did().is_local() {
+                    for v in def.variants() {
+                        for f in v.fields.iter() {
+                            let fty = f.ty(tcx, args);
+                            self.drops(fty, depth + 1);
+                        }
+                    }
+                }
+            }
+            ty::Tuple(ts) => {
+                for x in ts.iter() {
+                    self.drops(x, depth + 1);
+                }
+            }
+            ty::Array(x, _) | ty::Slice(x) => self.drops(*x, depth + 1),
+            ty::Closure(_, cargs) => {
+                for x in cargs.as_closure().upvar_tys() {
+                    self.drops(x, depth + 1);
+                }
+            }
+            _ => {}
+        }
+    }
+}
+
+fn implicit_call_edges<'tcx>(
+    tcx: TyCtxt<'tcx>,
+    env: TypingEnv<'tcx>,
+    did: DefId,
+    args: ty::GenericArgsRef<'tcx>,
+) -> Vec<String> {
+    let mut im = Implicit { tcx, env, seen: Default::default(), out: vec![], budget: 200 };
+    im.bounds_of(did, args, 0);
+    im.out.sort();
+    im.out.dedup();
+    im.out
+}
+
+fn implicit_drop_edges<'tcx>(tcx: TyCtxt<'tcx>, env: TypingEnv<'tcx>, t: Ty<'tcx>) -> Vec<String> {
+    let mut im = Implicit { tcx, env, seen: Default::default(), out: vec![], budget: 200 };
+    im.drops(t, 0);
+    im.out.sort();
+    im.out.dedup();
+    im.out
 }
